@@ -490,24 +490,30 @@ def judge(part, line, meta, res):
     part.count("scripts-completed")
 
 
+_CHUNK = 800     # scripts per harness process (bounds the memory held by parsed dumps)
+
+
 def _worker(args):
     seed, shard, count, exe = args
     rng = gen.rng_for(seed, PROP, shard)
     part = report.Part()
     stats = collections.Counter()
-    cases = [gen_script(rng, stats) for _ in range(count)]
+    done = 0
+    while done < count:
+        cases = [gen_script(rng, stats) for _ in range(min(_CHUNK, count - done))]
+        res = hrun.run_cases(exe, [ln for ln, _ in cases], env=_ENV, per_batch_timeout=900)
+        for i, (line, meta) in enumerate(cases):
+            part.evaluations += 1
+            judge(part, line, meta, res[i])
+            if shard == 0 and done == 0 and i < 3:
+                part.sample({"script": line[:600], "ops": len(meta["ops"]), "start": meta["kind"], "full_dumps_from": meta["full_from"]})
+        for extra in res[len(cases):]:
+            br = extra.get("batch_report") if extra else None
+            if br:
+                part.violation("%s:%s:%s" % (PROP, br["class"][0], br["class"][1]), "report at harness exit", {"stderr": br["stderr"][-3000:]})
+        done += len(cases)
     for k, v in stats.items():
         part.count(k, v)
-    res = hrun.run_cases(exe, [ln for ln, _ in cases], env=_ENV, per_batch_timeout=900)
-    for i, (line, meta) in enumerate(cases):
-        part.evaluations += 1
-        judge(part, line, meta, res[i])
-        if shard == 0 and i < 3:
-            part.sample({"script": line[:600], "ops": len(meta["ops"]), "start": meta["kind"], "full_dumps_from": meta["full_from"]})
-    for extra in res[len(cases):]:
-        br = extra.get("batch_report") if extra else None
-        if br:
-            part.violation("%s:%s:%s" % (PROP, br["class"][0], br["class"][1]), "report at harness exit", {"stderr": br["stderr"][-3000:]})
     return part
 
 
@@ -531,7 +537,7 @@ def run(tier, seed, replay=None, scale=1.0):
         part.sig("replay", 2)
         r.merge(part)
         return r.finish()
-    total = int((40000 if tier == "quick" else 900000) * scale)
+    total = int((20000 if tier == "quick" else 600000) * scale)
     nshards = 16 if tier == "quick" else 256
     per = max(1, total // nshards)
     shards = [(seed, i, per, exe) for i in range(nshards)]
